@@ -1,6 +1,6 @@
 ------------------------------ MODULE Obs_Struct ------------------------------
 (* Role B1 for the F-Struct family: C05 (field selection), C10 (update methods), the accessibility clause of C03. *)
-EXTENDS Fields, Update, Json, FP
+EXTENDS Fields, Update, Default, Json, FP
 CONSTANT ObsFile
 Obs == ndJsonDeserialize(ObsFile)
 Rng(q) == {q[i] : i \in DOMAIN q}
@@ -30,7 +30,18 @@ UpdFinger(r) ==
   ELSE UNION {LET m == Must(p, UFields[i], Rng(r.nonzero)) IN
               IF m # "open" /\ r.post[i] # m THEN {<<"C10", IF m = "keep" THEN "field-overwritten" ELSE "field-not-updated", UFields[i], r.id>>} ELSE {} : i \in 1..4}
 
-Finger(r) == IF r.kind = "field" THEN FieldFinger(r) ELSE IF r.kind = "acc" THEN AccFinger(r) ELSE UpdFinger(r)
+\* C11, default constructors: res = [nil, A, B] of the returned struct (nil: a nil pointer was returned)
+DMatch(e, got) == e = -1 \/ e = got
+DefFinger(r) ==
+  LET p == r.prog e == IF r.srcNil THEN ExpectNil(p) ELSE ExpectVal(p) IN
+  IF r.gen = "panic" THEN {<<"C13", "generator-panic", r.why, r.id>>}
+  ELSE IF r.gen # "ok" THEN {<<"C11", "default-constructor-program-rejected", "", r.id>>}
+  ELSE IF ~r.compiles THEN {<<"C01", "does-not-compile", "default", r.id>>}
+  ELSE IF r.panic THEN {<<"C11", "method-with-default-panics", "", r.id>>}
+  ELSE IF r.res.nil THEN {<<"C11", IF r.srcNil THEN "nil-source-does-not-return-constructor-result" ELSE "nil-result", "", r.id>>}
+  ELSE (IF ~DMatch(e.A, r.res.A) THEN {<<"C11", IF r.srcNil THEN "nil-source-does-not-return-constructor-result" ELSE "mapped-field-not-converted", "", r.id>>} ELSE {})
+       \cup (IF ~DMatch(e.B, r.res.B) THEN {<<"C11", IF r.srcNil THEN "nil-source-does-not-return-constructor-result" ELSE IF p.ignoreB THEN "ignored-field-lost-constructor-value" ELSE "mapped-field-not-converted", "", r.id>>} ELSE {})
+Finger(r) == IF r.kind = "field" THEN FieldFinger(r) ELSE IF r.kind = "acc" THEN AccFinger(r) ELSE IF r.kind = "default" THEN DefFinger(r) ELSE UpdFinger(r)
 VARIABLES l, bad
 Init == l = 1 /\ bad = {}
 Next == /\ l <= Len(Obs)
